@@ -239,6 +239,10 @@ impl Property for C04 {
         if bitwise {
             stats.probe("bitwise_equal", true);
         }
+        for t in got.params.iter() {
+            t.iter().for_each(|x| stats.observe(x.to_bits() as u64));
+        }
+        got.train_loss.iter().for_each(|x| stats.observe(x.to_bits() as u64));
         Outcome::Pass
     }
 
